@@ -210,9 +210,11 @@ def stream_from_trace(path, max_skip=30):
             blocks.append({"txs": cur, "skip": max(0, min(int(ev["n"]) - 1, max_skip)), "failed_staking": bad})
             cur, bad = [], False
         else:
-            cur.append(ev)
+            ev = dict(ev)
             if ev["kind"] in ("Delegate", "Undelegate", "Redelegate") and r["out"]["result"] != "ok":
                 bad = True
+                ev["_failed"] = True
+            cur.append(ev)
     if cur:
         blocks.append({"txs": cur, "skip": 0, "failed_staking": bad})
     return blocks
@@ -226,16 +228,23 @@ def stream_scripts(blocks, rnd):
     for b in blocks:
         cur = []
         for tx in b["txs"]:
+            failed = tx.pop("_failed", False)
             cur.append(tx)
-            if rnd.random() < 0.4:
-                cut.append({"txs": cur, "skip": 0, "failed_staking": False})
+            if failed or rnd.random() < 0.4:
+                cut.append({"txs": cur, "skip": 0, "failed_staking": failed})
                 cur = []
-        cut.append({"txs": cur, "skip": b["skip"], "failed_staking": b["failed_staking"]})
+        cut.append({"txs": cur, "skip": b["skip"], "failed_staking": False})
+    delegators = ["vo1", "vo2"]
     for b in cut:
         # noise aimed at whoever acts in this block: a delegation far above his balance fails between the two staking hooks
         for tx in b["txs"]:
+            if tx["kind"] == "Delegate" and tx["creator"] not in delegators:
+                delegators.append(tx["creator"])
             if tx["kind"] in STAKING_KINDS and rnd.random() < 0.6:
-                poison = {"kind": "Delegate", "creator": tx["creator"], "val": rnd.choice(["v1", "v2"]), "amount": 200000000}
+                # ... attempted by the actor himself, or by anybody who holds a delegation (the operators hold the largest)
+                who = tx["creator"] if rnd.random() < 0.5 else rnd.choice(delegators)
+                val = {"vo1": "v1", "vo2": "v2"}.get(who, rnd.choice(["v1", "v2"]))
+                poison = {"kind": "Delegate", "creator": who, "val": val, "amount": 200000000}
                 noisy.append({"op": rnd.choice(["simulate", "checktx"]), "tx": poison})
             elif rnd.random() < 0.1:
                 noisy.append({"op": rnd.choice(["simulate", "checktx"]), "tx": tx})
